@@ -83,4 +83,22 @@ CHECKS = {
   "technique": "TLA+ trace validation of boundary-size workloads + TLC model of the stream protocol",
   "ref": "DESIGN.md 5/C15",
  },
+ "C07": {
+  "text": "AnemoWire transcribes the layout (preamble, big-endian frame lengths, bincode fixed-int little-endian header with strings and the header map, raw body) and the decoder as the code runs; TLC evaluates RoundTrip, PrefixRejected (every strict prefix of every message), Closed (magic, reserved byte, versions 0/2/256, statuses 0/201/65535) and a golden byte string over 364 requests and 224 responses (routes incl. a 2-byte character, <= 2 headers in both orders, bodies incl. 0x00/0xff); each (message, bytes) row is replayed: the real encoder (with and without local extensions set) must produce the specification's bytes, the real decoder must return the message from them, reject every strict prefix (31k decodes) and every closed-set mutation; random larger messages (any unicode, NUL) encoded by the real code are decoded by the specification's decoder in AnemoWireTrace and their total length must be exactly preamble + two frames.",
+  "note": "Multi-megabyte bodies are covered by C02/C15 through lengths and digests; here bodies are small.",
+  "technique": "TLA+ specification of the byte layout evaluated by TLC + exhaustive replay both ways",
+  "ref": "DESIGN.md 5/C07",
+ },
+ "C16": {
+  "text": "AnemoRouter models route / route_layer / merge / add_rpc_service over exact and wildcard-tail patterns with matchit's conflict rule; TLC enumerates all 6166 build sequences of <= 4 operations (6 patterns, 2 layers, 2 pre-layered sub-routers) and checks ExactlyOne; each sequence is executed on the real Router: a conflicting insert must panic exactly when the specification says, and each of 16 probe paths (exact, trailing slash, empty, missing leading slash, under a wildcard, the literal pattern) must reach exactly the service and layer stack (outermost first) the specification gives, or NotFound; plus a sweep of odd strings that must never panic.",
+  "note": "Patterns outside the language the property names (named parameters) are out of scope.",
+  "technique": "TLA+ model checking (TLC) + exhaustive replay of TLC-enumerated build sequences into the real Router",
+  "ref": "DESIGN.md 5/C16",
+ },
+ "C17": {
+  "text": "AnemoCodegen gives path and prefix as functions of (package, service, route) and TLC checks that a path lies under its own service's prefix and no other's (a service name that prefixes another, dotted and empty packages); for each of the 27 definition rows x 2 codec/raw-bytes settings the real client and server generators are run and the route literals of the generated client, the server's dispatch arms and SERVICE_NAME are extracted from the token streams and compared; code generated at build time by /repo's anemo-build for four definitions is compiled into the harness and typed calls through one real Router holding all services must reach exactly the handler of the same name, with the pipeline table (handler Ok -> message + headers; handler Status -> same code, message, headers; undecodable payload -> Unknown without running the handler; undecodable response / non-success status -> Err) holding.",
+  "note": "The weakest use of the specification: a thin transcription of a string function plus a four-row table; the weight is on replaying it against the real generators.",
+  "technique": "TLA+ table evaluated by TLC + replay into the real code generators and compiled generated code",
+  "ref": "DESIGN.md 5/C17",
+ },
 }
